@@ -79,6 +79,11 @@ def r1_mutator_guards(chk: Check):
             n_sites += 1
             key = chk.fkey(f, f"mutates {what}: {norm_stmt(x) if isinstance(x, ast.stmt) else src(x)[:80]}")
             loc = chk.loc(f.module, x)
+            # a guarded container must never be shared between two configurations: the seal of one does not protect it from the other's mutators
+            if isinstance(x, ast.Assign) and isinstance(x.value, ast.Attribute) and x.value.attr in ("pre_tasks", "values") and dotted(x.value.value) != base:
+                chk.violation(key, f"`{norm_stmt(x)}` in `{f.qual}` makes two configurations share one `{x.value.attr}` container: adding to the (unsealed) one changes the sealed one, "
+                              "whose identifier and job directory are already fixed", loc)
+                continue
             # construction / loading contexts (frozen table, each verified)
             if f.qual == "ConfigInformation.__init__":
                 chk.ok(key, loc, "object under construction")
